@@ -771,6 +771,12 @@ func c05GenTask(r *Rand, kind string, faults bool, first, second int) TaskPlan {
 				o.Op = "pveval"
 			case 7:
 				o.Op = r.Pick([]string{"defeval", "defeval", "defreeval"})
+			case 10:
+				if i > 0 {
+					// the operations manager is switched, then the expression set before is evaluated again as it is
+					tp.Ops = append(tp.Ops, Op{Op: "config", I: 100})
+					o.Op = r.Pick([]string{"reeval", "reeval", "defreeval"})
+				}
 			case 9:
 				if i > 0 {
 					// the default variables are emptied (or lose one entry), then the calculator's own text is set again
